@@ -1010,6 +1010,12 @@ cfoldBCall(Foam bcall)
 		s = cfoldArrToString(argv[0]);
 		foam = foamNewSFlo((SFloat) atof(s));
 		strFree(s);
+		/* An infinity has no spelling in C, Lisp or FOAM text:
+		 * leave the conversion to the run time. */
+		if (!isfinite(foam->foamSFlo.SFloData)) {
+			foamFreeNode(foam);
+			foam = bcall;
+		}
 		break;
 	  case FOAM_BVal_ArrToDFlo:
 	      /*if (!cfoldFoldFloat) break;*/
@@ -1018,6 +1024,10 @@ cfoldBCall(Foam bcall)
 		s = cfoldArrToString(argv[0]);
 		foam = foamNewDFlo(atof(s));
 		strFree(s);
+		if (!isfinite(foam->foamDFlo.DFloData)) {
+			foamFreeNode(foam);
+			foam = bcall;
+		}
 		break;
 	  case FOAM_BVal_ArrToSInt:
 		if (!cfoldFoldAll) break;
